@@ -1,5 +1,5 @@
 (** C08 — a finalized listing is an immutable, binding offer until it expires. *)
-From FM Require Import Offer Reentrant.
+From FM Require Import Offer Reentrant CallSeq.
 
 (** The owner of a listing still in preparation can finalize it for exactly the lifetimes
     600 .. 1209600 seconds, bounds included. *)
@@ -66,6 +66,15 @@ Theorem C08_status_monotone_with_reentry : forall tx w id,
   Inv (market w) -> (lrank (market w) id <= lrank (market (rrun w tx)) id)%nat.
 Proof. exact rrun_rank_mono. Qed.
 Print Assumptions C08_status_monotone_with_reentry.
+
+(** Under every interleaving (proofs/CallSeq.v): along any sequence of successful marketplace
+    calls, by anybody, in any order or nesting, a finalized listing stays in the store field for
+    field until the call that buys it or — by its owner, once it expired — deletes it. *)
+Theorem C08_binding_offer_under_every_interleaving : forall s s' k l,
+  Inv s -> mreach s s' -> find_key k (listings s) = Some l -> lstatus l = FinalizedReady ->
+  find_key k (listings s') = Some l \/ (3 <= lrank s' (snd k))%nat.
+Proof. exact binding_offer. Qed.
+Print Assumptions C08_binding_offer_under_every_interleaving.
 
 Definition ask1 : gbal := mkG [(0, 5)] [] [].
 Definition winit : world :=
